@@ -167,3 +167,38 @@ void gen_benign_io (GenCtx &g, J &plan)
 	if (g.rng.chance (0.5)) io ["eintr_every"] = (int) g.rng.range (2, 9) ;
 	plan ["io"] = io ;
 }
+
+
+// ------------------------------------------------------------------------------------------
+// Initial-memory differential. Every execution fills fresh library heap blocks and the unused stack below each library call with a
+// printable letter chosen by the plan; here the same plan runs once more with a non-printable byte instead. What the calls return
+// (counts, errors, hashes of returned data and strings) and every byte the library stored must be the same: a difference means
+// uninitialised memory reached a result or the file ("repeating the run later or in another process yields byte-identical files",
+// "independent of what the library did earlier in the same process").
+void memory_differential (Verdict &v, const char *prop, const J &plan, const Result &r0)
+{	ExecOpts mo ; mo.mem_fill = 0x80 | (int) (plan.geti ("seed") & 0x3f) ;
+	Result rm = execute (plan, mo) ;
+	v.absorb (rm) ;
+	v.probes ["memory_differential"] ++ ;
+	std::string where ;
+	for (size_t t = 0 ; where.empty () && t < r0.transcript.size () && t < rm.transcript.size () ; t++)
+		for (size_t o = 0 ; o < r0.transcript [t].size () && o < rm.transcript [t].size () ; o++)
+		{	const Rec &x = r0.transcript [t][o], &y = rm.transcript [t][o] ;
+			if (x.ret != y.ret || x.err != y.err || x.dh != y.dh)
+			{	char b [240] ; snprintf (b, sizeof (b), "task %zu op %zu (%s): ret %lld/%lld err %d/%d data %llx/%llx", t, o, x.api.c_str (), (long long) x.ret, (long long) y.ret, x.err, y.err, (unsigned long long) x.dh, (unsigned long long) y.dh) ;
+				where = b ; break ;
+			}
+		}
+	std::string disc = "results" ;
+	if (where.empty ())
+		for (auto &kv : r0.stores)
+		{	auto it = rm.stores.find (kv.first) ;
+			if (it == rm.stores.end () || it->second.size () != kv.second.size ()) { where = kv.first + ": size differs" ; disc = "bytes" ; break ; }
+			for (size_t k = 0 ; k < kv.second.size () ; k++) if (kv.second [k] != it->second [k]) { where = kv.first + ": first difference at byte " + std::to_string (k) + " of " + std::to_string (kv.second.size ()) ; disc = "bytes" ; break ; }
+			if (!where.empty ()) break ;
+		}
+	if (where.empty ()) return ;
+	Finding fd ; fd.sig = make_sig_raw (prop, "memory", plan.at ("cfg").gets ("fmt"), plan.at ("cfg").gets ("route"), "none", disc) ;
+	fd.detail = "same calls on different initial memory (fresh heap blocks / unused stack hold another byte): " + where ;
+	v.findings.push_back (fd) ;
+}
